@@ -261,4 +261,79 @@ theorem gt_tail_step (l : Level) (O Z d2 : List Nat) (s1 s2 : Nat) (sub : Bool) 
         rw [gt_flatten_length, hT, gp_mapM_lengthG _ _ _ hm, List.length_range']
       rw [gt_splice_app O _ _ hol]
 
+/-- `Evaluator::translate_inplace` (add / sub), equal correction factors, the SECOND operand longer (checks passed): the first buffer is
+    resized, the common polynomials are added / subtracted, the extra polynomials of the second operand are copied and - in a subtraction -
+    negated -/
+theorem gt_translate_lt (l : Level) (d1 d2 : List Nat) (s1 s2 : Nat) (ntt : Bool) (cf : Nat) (sub : Bool) (t : Modulus)
+    (hlt : s1 < s2) (hs : 2 ≤ s2 ∧ s2 ≤ 16) (hl1 : 1 ≤ l.size)
+    (h1 : d1.length = s1 * (l.size * l.n)) (h2 : d2.length = s2 * (l.size * l.n)) (hpl : l.n * l.size < B64) (hB : d2.length < B64) :
+    GenC.ct_translate_inplace_eq d1 s1 cf d2 s2 cf sub true true true false true l.qs.toList t l.n =
+      Except.map (fun c => (flattenCt l c, max s1 s2, cf)) (ctTranslate l (unflattenCt l s1 d1 ntt cf) (unflattenCt l s2 d2 ntt cf) sub) := by
+  have hlen : l.qs.toList.length = l.size := by simp [Level.size]
+  have hmax : max s1 s2 = s2 := Nat.max_eq_right (Nat.le_of_lt hlt)
+  have hmin : min s1 s2 = s1 := Nat.min_eq_left (Nat.le_of_lt hlt)
+  have hle' : s2 * l.n ≤ s2 * (l.size * l.n) := Nat.mul_le_mul_left _ (Nat.le_mul_of_pos_left _ hl1)
+  have hck1 : ckMul s2 l.n = .ok (s2 * l.n) := by unfold ckMul; rw [if_pos (by omega)]
+  have hck2 : ckMul (s2 * l.n) l.size = .ok (s2 * (l.size * l.n)) := by
+    unfold ckMul
+    have : s2 * l.n * l.size = s2 * (l.size * l.n) := by rw [Nat.mul_assoc, Nat.mul_comm l.n l.size]
+    rw [this, if_pos (by omega)]
+  have hs12 : s1 * (l.size * l.n) ≤ s2 * (l.size * l.n) := Nat.mul_le_mul_right _ (Nat.le_of_lt hlt)
+  have hckA : ckMul l.n l.size = .ok (l.size * l.n) := by unfold ckMul; rw [if_pos hpl, Nat.mul_comm]
+  have hckB : ckMul s1 (l.size * l.n) = .ok (s1 * (l.size * l.n)) := by unfold ckMul; rw [if_pos (by omega)]
+  have hckC : ckMul s2 (l.size * l.n) = .ok (s2 * (l.size * l.n)) := by unfold ckMul; rw [if_pos (by omega)]
+  have hsub : ckSub s2 s1 = .ok (s2 - s1) := by unfold ckSub; rw [if_pos (Nat.le_of_lt hlt)]
+  have hsz : ¬ ((s2 < 2 ∧ s2 ≠ 0) ∨ s2 > 16) := by omega
+  have hrs : GenC.resizeL d1 (s2 * (l.size * l.n)) 0 = d1 ++ List.replicate ((s2 - s1) * (l.size * l.n)) 0 := by
+    rw [gt_resizeL_grow _ _ (by omega), h1, Nat.sub_mul]
+  have hd1' : (d1 ++ List.replicate ((s2 - s1) * (l.size * l.n)) 0).length = s2 * (l.size * l.n) := by
+    rw [List.length_append, List.length_replicate, h1, ← Nat.add_mul]; congr 1; omega
+  have hdrop : (d1 ++ List.replicate ((s2 - s1) * (l.size * l.n)) 0).drop (s1 * (l.size * l.n)) = List.replicate ((s2 - s1) * (l.size * l.n)) 0 := by
+    rw [← h1, List.drop_left]
+  have hblk : ∀ i, i ∈ List.range s1 → gp_blk (l.size * l.n) (d1 ++ List.replicate ((s2 - s1) * (l.size * l.n)) 0) i = gp_blk (l.size * l.n) d1 i := by
+    intro i hi
+    exact gt_blk_app _ _ _ _ (by rw [h1]; exact gp_blk_bound (List.mem_range.mp hi))
+  unfold GenC.ct_translate_inplace_eq
+  simp only [if_true, hmax, hmin, ne_eq, not_true_eq_false, if_false, hsz, not_false_eq_true, hlen, hck1, hck2, hckA, hckB, hckC, hsub,
+    bind, Except.bind, hrs, hlt, pure, Except.pure, Bool.false_eq_true]
+  rw [gt_ctTranslate_eq, hmax, hmin]
+  rw [gp_mapM_congr' _ (fun i => if sub then rnsNeg l (gt_U l d2 i) else (pure (gt_U l d2 i) : R RnsPoly)) (List.range' s1 (s2 - s1)) (by
+    intro i _
+    rw [if_neg (by omega)])]
+  have hstep := fun (O : List Nat) (hO : O.length = s1 * (l.size * l.n)) =>
+    gt_tail_step l O (List.replicate ((s2 - s1) * (l.size * l.n)) 0) d2 s1 s2 sub hlt hO (List.length_replicate ..) h2 hpl (by omega)
+  cases sub with
+  | false =>
+    simp only [Bool.false_eq_true, not_false_eq_true, if_true, if_false] at hstep ⊢
+    rw [gp_poly_add_inplace_ps_model l _ d2 s1 hpl (by rw [hd1']; exact hs12) (by rw [h2]; exact hs12) (by rw [hd1']; omega), hdrop]
+    rw [gp_mapM_congr' _ (fun i => rnsAdd l (gt_U l d1 i) (gt_U l d2 i)) (List.range s1) (by
+      intro i hi; simp only [gt_U, hblk i hi])]
+    cases hm : (List.range s1).mapM (fun i => rnsAdd l (gt_U l d1 i) (gt_U l d2 i)) with
+    | error e => rfl
+    | ok outs =>
+      have hO : ((outs.map (flattenRns l.size l.n)).flatten).length = s1 * (l.size * l.n) := by
+        rw [gt_flatten_length, gp_mapM_lengthG _ _ _ hm, List.length_range]
+      have h := hstep _ hO
+      simp only [bind, Except.bind, pure, Except.pure] at h ⊢
+      rw [h]
+      cases (List.range' s1 (s2 - s1)).mapM (fun i => (Except.ok (gt_U l d2 i) : R RnsPoly)) with
+      | error e => rfl
+      | ok ys => simp [Except.map, flattenCt]
+  | true =>
+    simp only [not_true_eq_false, if_true, if_false] at hstep ⊢
+    rw [gp_poly_sub_inplace_ps_model l _ d2 s1 hpl (by rw [hd1']; exact hs12) (by rw [h2]; exact hs12) (by rw [hd1']; omega), hdrop]
+    rw [gp_mapM_congr' _ (fun i => rnsSub l (gt_U l d1 i) (gt_U l d2 i)) (List.range s1) (by
+      intro i hi; simp only [gt_U, hblk i hi])]
+    cases hm : (List.range s1).mapM (fun i => rnsSub l (gt_U l d1 i) (gt_U l d2 i)) with
+    | error e => rfl
+    | ok outs =>
+      have hO : ((outs.map (flattenRns l.size l.n)).flatten).length = s1 * (l.size * l.n) := by
+        rw [gt_flatten_length, gp_mapM_lengthG _ _ _ hm, List.length_range]
+      have h := hstep _ hO
+      simp only [bind, Except.bind, pure, Except.pure] at h ⊢
+      rw [h]
+      cases (List.range' s1 (s2 - s1)).mapM (fun i => rnsNeg l (gt_U l d2 i)) with
+      | error e => rfl
+      | ok ys => simp [Except.map, flattenCt]
+
 end HC
